@@ -326,10 +326,12 @@ def _solve_node_lp(columns, column_set, demands, col_bounds, pricing_fn, is_cutt
             if new_col is None or pricing_value >= -eps:
                 break
 
-        if new_col is not None and new_col not in column_set:
-            columns.append(new_col)
-            column_set.add(new_col)
+        if new_col is None or new_col in column_set:
+            # Nothing new to add: the master LP and its duals would repeat unchanged
+            break
 
+        columns.append(new_col)
+        column_set.add(new_col)
         cg_iters += 1
 
     # Final solve
